@@ -34,10 +34,12 @@ type Prog struct {
 	nInstr int
 
 	// caches
-	calleeCache map[ssa.CallInstruction][]*ssa.Function
-	noRetCache  map[*ssa.Function]int // 0 unknown, 1 returns, 2 no-return, 3 in progress
-	reachCache  map[*ssa.Function]map[*ssa.Function]bool
-	callersOf   map[*ssa.Function][]ssa.CallInstruction
+	calleeCache     map[ssa.CallInstruction][]*ssa.Function
+	noRetCache      map[*ssa.Function]int // 0 unknown, 1 returns, 2 no-return, 3 in progress
+	reachCache      map[*ssa.Function]map[*ssa.Function]bool
+	callersOf       map[*ssa.Function][]ssa.CallInstruction
+	pathClassMemo   map[ssa.Value]string
+	fieldOwnerCache map[*types.Var]string
 }
 
 type LoadOpts struct {
@@ -51,6 +53,12 @@ func Load(o LoadOpts) (*Prog, error) {
 	env := append(os.Environ(), "GOFLAGS=-mod=mod", "GOPROXY=off", "GOWORK=off", "GOTOOLCHAIN=local", "CGO_ENABLED=0")
 	if o.GOARCH != "" {
 		env = append(env, "GOARCH="+o.GOARCH)
+	}
+	// go list must be the toolchain this binary was built with (the default go cannot load a go 1.24 module offline)
+	if _, err := os.Stat("/opt/veriftools/go1.26.8/bin/go"); err == nil && !strings.HasPrefix(os.Getenv("PATH"), "/opt/veriftools/go1.26.8/bin") {
+		// go/packages looks the go command up in this process' PATH
+		os.Setenv("PATH", "/opt/veriftools/go1.26.8/bin:"+os.Getenv("PATH"))
+		env = append(env, "PATH="+os.Getenv("PATH"))
 	}
 	cfg := &packages.Config{
 		Mode: packages.NeedName | packages.NeedFiles | packages.NeedCompiledGoFiles | packages.NeedImports |
@@ -71,7 +79,7 @@ func Load(o LoadOpts) (*Prog, error) {
 	p := &Prog{Dir: o.Dir, GOARCH: o.GOARCH, Tags: o.Tags, ByPath: map[string]*packages.Package{}, SSAPkg: map[string]*ssa.Package{},
 		fnSet: map[*ssa.Function]bool{}, Decls: map[*types.Func]*ast.FuncDecl{}, DeclPkg: map[*types.Func]*packages.Package{},
 		calleeCache: map[ssa.CallInstruction][]*ssa.Function{}, noRetCache: map[*ssa.Function]int{},
-		reachCache: map[*ssa.Function]map[*ssa.Function]bool{}}
+		reachCache: map[*ssa.Function]map[*ssa.Function]bool{}, pathClassMemo: map[ssa.Value]string{}}
 	var errs []string
 	packages.Visit(pkgs, nil, func(pk *packages.Package) {
 		for _, e := range pk.Errors {
@@ -282,11 +290,9 @@ func (p *Prog) fieldName(v *types.Var) string {
 	return v.Name()
 }
 
-var fieldOwnerCache map[*types.Var]string
-
 func (p *Prog) fieldOwner(v *types.Var) string {
-	if fieldOwnerCache == nil {
-		fieldOwnerCache = map[*types.Var]string{}
+	if p.fieldOwnerCache == nil {
+		p.fieldOwnerCache = map[*types.Var]string{}
 		for _, pk := range p.Pkgs {
 			sc := pk.Types.Scope()
 			for _, n := range sc.Names() {
@@ -299,10 +305,10 @@ func (p *Prog) fieldOwner(v *types.Var) string {
 					continue
 				}
 				for i := 0; i < st.NumFields(); i++ {
-					fieldOwnerCache[st.Field(i)] = tn.Name()
+					p.fieldOwnerCache[st.Field(i)] = tn.Name()
 				}
 			}
 		}
 	}
-	return fieldOwnerCache[v]
+	return p.fieldOwnerCache[v]
 }
